@@ -100,7 +100,11 @@ AllReleased(m) ==
 WEnd(m, e) ==
   IF e.why = "hang"
   THEN (* final quiescence: a library thread that has exited must get joined *)
-       Chk(m, m.libthr # {}, \A c \in m.libthr : c[2] \in m.exited => c[2] \in m.joined \cup m.detached, "C13:not-joined")
+       LET m1 == Chk(m, m.libthr # {}, \A c \in m.libthr : c[2] \in m.exited => c[2] \in m.joined \cup m.detached, "C13:not-joined")
+           (* every pool released, every item completed, nothing moves any more: each worker that
+              called its start hook has called its stop hook (and exited) *)
+           released == (\A p \in Obj : ~m.pool[p].reg) /\ (\E p \in Obj : m.pool[p].put) /\ Incomplete(m) = {}
+       IN Chk(m1, released /\ (\E t \in Thr : m.hs[t] > 0), \A t \in Thr : m.hs[t] = m.hp[t], "C13:worker-left")
   ELSE IF e.why # "ok" THEN m
   ELSE LET m1 == Chk(m, \E i \in Obj : m.wi[i].st # "idle", Incomplete(m) = {} \/ (\E t \in Thr : m.quit[t]), "C12:incomplete")
            m2 == Chk(m1, \E t \in Thr : m.hs[t] > 0, \A t \in Thr : m.hs[t] = m.hp[t] \/ (\E u \in Thr : m.quit[u]), "C13:hook-unpaired")
